@@ -383,7 +383,12 @@ def run_prop(ctx, prop):
             mu = rep["mu"]
             ctx.traces += 1
             if rep["mismatch"] is not None:
-                raise tlc.MachineryError("counterexample of %s is not a behaviour of the code: %s" % (name, rep["mismatch"]))
+                # the code leaves the behaviour (a different slack than alpha*eps of the configured cone, another transition, an exception):
+                # the same report as for simulated behaviours below
+                mm = rep["mismatch"]
+                ctx.violation("replay-%s|%s" % (mm["kind"], name), {"instantiation": name, "truth": rep["mu"], "mismatch": mm, "states": len(res.trace)},
+                              "%s: the real class leaves TLC's counterexample behaviour: %s" % (name, mm))
+                continue
             ok, why = accurate(I, mu, rep["final"] or [])
             if ok or rep["final"] is None:
                 raise tlc.MachineryError("counterexample of %s replayed into the code gives an accurate P %s" % (name, rep["final"]))
